@@ -304,3 +304,6 @@ fn twin_fmt_forced_fat16_always_ok() {
     assert!(format_boot_sector::<()>(&o, total_sectors).is_ok());
 }
 
+
+/// Accessor for sibling harness modules (BiosParameterBlock::validate is private to this module).
+pub(crate) fn bpb_is_valid(b: &BiosParameterBlock) -> bool { b.validate::<()>().is_ok() }
